@@ -15,6 +15,9 @@ import (
 	"berty.tech/go-ipfs-log/iface"
 )
 
+// number of appends with a 2.5 s block write the generator may still place in this run
+var slowBudget int
+
 type profile struct {
 	name                                           string
 	minReps, maxReps, minOps, maxOps               int
@@ -127,6 +130,11 @@ func (g *genState) next(h *histRun, i int) *hop {
 			}
 			if g.p.pFault > 0 && rng.Float64() < g.p.pFault {
 				o.Fault = true
+			} else if g.p.pFault > 0 && rng.Float64() < 0.04 {
+				o.Stall = "ctx"
+			} else if g.p.pFault > 0 && slowBudget > 0 && rng.Intn(20) == 0 {
+				slowBudget--
+				o.Stall = "slow"
 			}
 			return o
 		default:
@@ -343,10 +351,12 @@ func runLogProp(cfg logRunCfg) func(seed int64, tier string, outDir string) *res
 		res := &result{Property: cfg.prop, Seed: seed, Tier: tier, Stats: map[string]interface{}{}}
 		n := cfg.nQuick
 		prof := cfg.profile
+		slowBudget = 1
 		if tier == "thorough" {
 			n = cfg.nThorough
 			prof.maxOps *= 3
 			prof.maxReps++
+			slowBudget = 6
 		}
 		hl := &caseList{name: "hist_cases", typ: "history", checker: "mismatches_hist"}
 		wl := &caseList{name: "hist_cases_wf", checker: "mismatches_wf", sameAs: hl}
@@ -421,7 +431,7 @@ func runLogProp(cfg logRunCfg) func(seed int64, tier string, outDir string) *res
 			}
 		}
 		// scenario monitors built on LogOptions.Entries (forged entries, shared entry maps)
-		if replayFile == "" && (cfg.prop == "C06" || cfg.prop == "C05" || cfg.prop == "C03" || cfg.prop == "C02" || cfg.prop == "C04" || cfg.prop == "C01" || cfg.prop == "C16") {
+		if replayFile == "" && (cfg.prop == "C06" || cfg.prop == "C05" || cfg.prop == "C03" || cfg.prop == "C02" || cfg.prop == "C04" || cfg.prop == "C01" || cfg.prop == "C16" || cfg.prop == "C17") {
 			st := &c06Stats{kinds: map[string]int{}}
 			xf := func(prop, mon, key, detail string, c interface{}) {
 				if prop == cfg.prop || contains(cfg.alsoReport, prop) {
@@ -443,9 +453,14 @@ func runLogProp(cfg logRunCfg) func(seed int64, tier string, outDir string) *res
 				runAppendScenarios(xr, na, st, xf)
 			} else if cfg.prop == "C16" {
 				runGapScenarios(xr, na/5+1, st, xf)
+			} else if cfg.prop == "C17" {
+				runPinFaultScenarios(xr, na, st, xf)
 			} else if cfg.prop != "C06" {
 				runAliasScenarios(xr, na, st, xf)
 				runPartialJoinScenarios(xr, na, st, xf)
+				if cfg.prop == "C02" {
+					runPinFaultScenarios(xr, na, st, xf)
+				}
 			}
 			res.Stats["forged_logs_joined"] = st.forged
 			res.Stats["forged_logs_rejected"] = st.rejected
